@@ -700,8 +700,9 @@ theorem finalize_pins (ridKey : String) (hrid : ridKey ≠ ctKey) (R0 : Reqs) (i
 
 /-! ### validation -/
 
-theorem validateCommand_replace (names : List String) (re : Sim) (h : validateCommand (some names) re = true) :
-    re.allScheduled = true ∧ ∃ c, re.claims = [c] ∧ ∀ n ∈ names, n ∈ c.its.map (·.name) := by
+theorem validateCommand_replace (R : Reqs) (names : List String) (re : Sim)
+    (h : validateCommand (some (R, names)) re = true) :
+    re.allScheduled = true ∧ ∃ c, re.claims = [c] ∧ (∀ n ∈ names, n ∈ c.its.map (·.name)) ∧ reqsSubset R c.reqs = true := by
   unfold validateCommand at h
   cases ha : re.allScheduled with
   | false => rw [ha] at h; simp at h
@@ -715,9 +716,10 @@ theorem validateCommand_replace (names : List String) (re : Sim) (h : validateCo
       | cons _ _ => rw [hc] at h; simp at h
       | nil =>
         rw [hc] at h
-        refine ⟨c, rfl, ?_⟩
+        have h2 : namesSubset names (c.its.map (·.name)) = true ∧ reqsSubset R c.reqs = true := by simpa using h
+        refine ⟨c, rfl, ?_, h2.2⟩
         intro n hn
-        have : namesSubset names (c.its.map (·.name)) = true := by simpa using h
+        have := h2.1
         unfold namesSubset at this
         have := List.all_eq_true.mp this n hn
         simpa using this
